@@ -2974,6 +2974,322 @@ def _o711(chk, drv, ex, holders):
                f"`{P}` := {short(a, 40)}; the schedule's sample type is loop target {pos[0]} (`{u(want)}`) of {[u(t) for t in targets]}")
 
 
+# ---- O7.12 / O7.13: where the samples are PRODUCED (the request loop of the load generator, the composite runner) ----------------------------------------------
+class _ModelInterp(_Interp):
+    """_Interp with three hooks through which a rule supplies its model of what the evaluated routine does not build itself:
+         decide(term)                   -> truth of an unknown value (None: not decided by the model, explored both ways)
+         intercept(callee, args, kwargs) -> value of a call (NotImplemented: evaluated as usual)
+         stream(term, iter node)        -> the elements of a collection that is not modelled (None: the loop is skipped and remembered, as usual)
+       `not <term>` is decided as the negation of <term> (one decision, not two)."""
+
+    def __init__(self, mods, oracle=()):
+        super().__init__(mods, oracle)
+        self.decide = self.intercept = self.stream = None
+
+    def truth(self, v):
+        if isinstance(v, _T):
+            if v.op == "not" and len(v.args) == 1:
+                return not self.truth(v.args[0])
+            if self.decide is not None:
+                d = self.decide(v)
+                if d is not None:
+                    return d
+        return super().truth(v)
+
+    def iterate(self, v, node):
+        if isinstance(v, _T) and self.stream is not None:
+            r = self.stream(v, node)
+            if r is not None:
+                return list(r)
+        return super().iterate(v, node)
+
+    def call(self, f, args, kwargs, node):
+        if self.depth > 0 and self.intercept is not None:
+            r = self.intercept(f, args, kwargs)
+            if r is not NotImplemented:
+                return r
+        return super().call(f, args, kwargs, node)
+
+
+class _RequestLoop:
+    """The load generator's request loop (AsyncExecutor.__call__) evaluated on an EMPTY executor object - every attribute it reads is a term named after the attribute, so no
+    constructor parameter, attribute or local is located by name - for a schedule of `n` requests and one interleaving of the events the loop can observe:
+      the schedule   the collection the routine's `async for` runs over hands out n rows; the elements of row i are terms derived from the term `request<i>` (whatever the
+                     arity and the order of a row are)
+      a request      is EXECUTED when an element of a row is called (the runner; through execute_single or directly); it answers {weight, unit, success}
+      ext_at = j     the completion event of the parallel element (the event the executor itself sets when a completing task ends, see `completion_event`) is set by ANOTHER
+                     client while request j is in flight: is_set() on it answers False until j requests have been executed, True afterwards (0: never). Other events: never set.
+      done_at = j    the runner reports completion with request j: an attribute of an element of row j that is tested for truth is true, of other rows false (0: never)
+      throttled      comparisons computed from the scheduled time of a request (the task has a target throughput and the request is due in the future)
+      fail_at = j    request j fails: the runner answers {weight 0, success False}. Whether the task aborts on errors is left open; a decision sequence on which the routine ends
+                     with an exception (the race fails, no sample matters) is counted in `aborted` and not kept in `paths`.
+    Unknown values the model does not decide (does the task complete its parent, is there a ramp-up wait ...) are explored both ways: `paths` holds, per decision sequence,
+    (decisions that were true, requests executed, effects, executor object). Nothing of the repository is run."""
+
+    def __init__(self, drv, EX, fn, n, event=None, ext_at=0, done_at=0, throttled=False, fail_at=0):
+        self.paths, self.aborted = [], 0
+        bases = [_T("global", f"request{i + 1}") for i in range(n)]
+        self.bases = bases
+
+        def row_of(v):
+            return next((i for i, b in enumerate(bases) if _contains_term(v, b)), None)
+
+        def make(oracle):
+            it = _ModelInterp([drv], oracle)
+            selfo = _O("executor", EX, drv)
+            done, handed = [], []
+
+            def stream(v, node):
+                L = source.parent(node)
+                if not isinstance(L, ast.AsyncFor) or handed:
+                    return None
+                handed.append(v)
+                k = len(L.target.elts) if isinstance(L.target, (ast.Tuple, ast.List)) else None
+                return [b if k is None else tuple(_T("item", b, j) for j in range(k)) for b in bases]
+
+            def intercept(f, args, kwargs):
+                if not isinstance(f, _T):
+                    return NotImplemented
+                if f.op == "item" and row_of(f) is not None:
+                    done.append(row_of(f))
+                    return {"weight": 0, "unit": "ops", "success": False} if fail_at == row_of(f) + 1 else {"weight": 1, "unit": "ops", "success": True}
+                if f.op == "attr" and f.args[1] == "is_set" and not args and not kwargs:
+                    return bool(event is not None and ext_at and _RequestLoop.chain(f.args[0], selfo) == event and len(done) >= ext_at)
+                return NotImplemented
+
+            def decide(v):
+                i = row_of(v)
+                if i is None:
+                    return None
+                if v.op == "attr":
+                    return done_at == i + 1
+                if v.op == "cmp":
+                    return throttled
+                return None
+
+            it.stream, it.intercept, it.decide = stream, intercept, decide
+
+            def go():
+                try:
+                    it.call(_Fn(fn, drv, selfo), [], {}, fn)
+                except _Undecided:
+                    if it.raised is None:
+                        raise
+                    return True
+                return False
+
+            return (it, selfo, done), go
+
+        for (it, selfo, done), aborted in _explore(make):
+            if aborted:
+                self.aborted += 1
+            else:
+                self.paths.append((sorted(k for k, v in it.memo.items() if v), list(done), list(it.effects), selfo))
+
+    @staticmethod
+    def chain(v, selfo):
+        """the attribute names that lead from the executor object to the term v (`self.a.b` -> ("a", "b")); None if v is not such a chain"""
+        names = []
+        while isinstance(v, _T) and v.op == "attr":
+            names.append(v.args[1])
+            v = v.args[0]
+        return tuple(reversed(names)) if v is selfo and names else None
+
+    @staticmethod
+    def completion_event(drv, EX, fn):
+        """Role: the event through which the executor signals that a completing task has ended = the receiver of the `.set()` calls the routine makes for an empty schedule
+        (whichever helper makes them), as the chain of attributes that leads to it from the executor. None if there is not exactly one."""
+        run_ = _RequestLoop(drv, EX, fn, 0)
+        evs = set()
+        for _, _, effects, selfo in run_.paths:
+            for e in effects:
+                c = e.callee
+                if isinstance(c, _T) and c.op == "attr" and c.args[1] == "set" and _RequestLoop.chain(c.args[0], selfo) is not None:
+                    evs.add(_RequestLoop.chain(c.args[0], selfo))
+        return next(iter(evs)) if len(evs) == 1 else None
+
+
+_LOOP_SCENARIOS = (
+    ("no event", dict()),
+    ("the task has a target throughput (requests are due in the future)", dict(throttled=True)),
+    ("another client completes the parallel element while request 1 is in flight", dict(ext_at=1)),
+    ("another client completes the parallel element while request 2 is in flight", dict(ext_at=2)),
+    ("another client completes the parallel element while the last request is in flight", dict(ext_at=3)),
+    ("the runner reports completion with request 1", dict(done_at=1)),
+    ("the runner reports completion with request 2", dict(done_at=2)),
+    ("the runner reports completion with request 2 while another client completes the parallel element", dict(done_at=2, ext_at=2)),
+    ("request 2 fails and the task goes on", dict(fail_at=2)),
+)
+
+
+def _o712(chk, drv, ex, holders):
+    """Decided on VALUES (see _RequestLoop): for every scenario and every decision on what the model leaves open, the requests that were executed are exactly the requests for
+    which the sampler's add routine was called, once each. Structural is only which attribute of the executor holds the worker's sampler (followed from the Worker through the
+    constructors) and what the add routine of the sampler is called."""
+    h_attr, _, _ = holders
+    EX = source.enclosing_class(ex)
+    _, _, _, add_fn, _ = _sampler_roles(drv)
+    mine = {a for c, a in h_attr if EX is not None and c == EX.name}
+    if not mine:
+        raise AnchorMissing("the attribute of AsyncExecutor that holds the worker's sampler (followed from Worker through the constructors)")
+    try:
+        event = _RequestLoop.completion_event(drv, EX, ex)
+        if event is None:
+            chk.unknown("O7.12", "the completion event of the load generator (the one event it sets itself when a completing task has ended) is not recognised", ex)
+            return
+        runs = [(name, kw, _RequestLoop(drv, EX, ex, 3, event=event, **kw)) for name, kw in _LOOP_SCENARIOS]
+    except (_Undecided, _Need) as x:
+        chk.unknown("O7.12", f"the request loop of the load generator is not evaluated on the model schedule: {x}", ex)
+        return
+
+    def is_add(e, selfo):
+        c = e.callee
+        return isinstance(c, _T) and c.op == "attr" and c.args[1] == add_fn.name and isinstance(c.args[0], _T) and c.args[0].op == "attr" and c.args[0].args[0] is selfo and c.args[0].args[1] in mine
+
+    def owner(e, bases):
+        """the request a call of the add routine belongs to: the row of the loop iteration it was made under, else the row its arguments were computed from"""
+        under = [i for i, b in enumerate(bases) if any(_contains_term(c, b) for c in e.ctx)]
+        return under[-1] if under else next((i for i, b in enumerate(bases) if any(_contains_term(a, b) for a in e.args + list(e.kwargs.values()))), None)
+
+    if not any(done for _, _, r in runs for _, done, _, _ in r.paths):
+        chk.unknown("O7.12", "no request is executed on the model schedule (the runner the schedule hands out is never called): the request loop is not recognised", ex)
+        return
+    if not any(is_add(e, selfo) for _, _, r in runs for _, _, effects, selfo in r.paths for e in effects):
+        chk.unknown("O7.12", f"no call of `{add_fn.name}` on the executor's sampler ({sorted(mine)}) is made on the model schedule: where requests are sampled is not recognised", ex)
+        return
+    for name, kw, r in runs:
+        bad, site = [], ex
+        if not r.paths:
+            chk.unknown("O7.12", f"scenario `{name}`: the request loop ends with an exception on every decision sequence", ex)
+            continue
+        for dec, done, effects, selfo in r.paths:
+            adds = [e for e in effects if is_add(e, selfo)]
+            got = sorted((-1 if owner(e, r.bases) is None else owner(e, r.bases)) + 1 for e in adds)
+            want = sorted(i + 1 for i in done)
+            if got != want:
+                site = next((e.node for e in adds if isinstance(e.node, ast.AST)), ex)
+                bad.append(f"requests executed {want}, samples handed to the sampler for {got}" + (f" (when {', '.join(d[:70] for d in dec)})" if dec else ""))
+        chk.ob("O7.12", f"every executed request is handed to the sampler exactly once: {name}", not bad, site, "; ".join(dict.fromkeys(bad)) if bad else
+               f"schedule of 3 requests, {len(r.paths)} decision sequence(s): requests executed / sampled {sorted({tuple(i + 1 for i in done) for _, done, _, _ in r.paths})}",
+               key=f"{_D}:AsyncExecutor.__call__:request-sampled:{name}")
+
+
+_RN = "esrally/driver/runner.py"
+
+
+def _leaf(k, op_type):
+    return {"name": f"sub-{k}", "operation-type": op_type}
+
+
+def _structures(op_type):
+    """representative request structures of a composite operation: [(description, structure, leaves)]"""
+    out = []
+    for name, shape in (
+            ("a plain sequence of sub-requests", [0, 1]),
+            ("streams at the end of the structure", [0, [1, 2], [3]]),
+            ("streams that are followed by another sub-request (open-point-in-time, concurrent searches, close-point-in-time)", [0, [1, 2], [3], 4]),
+            ("two groups of streams, each followed by a sub-request", [[0], 1, [2, 3], 4]),
+            ("nested streams", [[[0, 1], 2, [3]], 4, [[5]]])):
+        leaves = {}
+
+        def build(x):
+            if isinstance(x, list):
+                return {"stream": [build(y) for y in x]}
+            leaves[x] = _leaf(x, op_type)
+            return leaves[x]
+
+        out.append((name, [build(x) for x in shape], leaves))
+    return out
+
+
+_AWAITED_AS_IS = ("create_task", "ensure_future", "shield", "wait_for")  # asyncio wrappers whose awaited result is the result of their first argument
+
+
+def _composite_run(rn, C, structure, leaves, oracle):
+    """Composite.__call__ evaluated for one request structure. A sub-request is EXECUTED when an object that is not the composite itself is called with the description of a
+    leaf (the timing wrapper around the leaf's runner); it answers a response that carries a dependent timing. Coroutines are evaluated where they are created:
+    create_task(c) / ensure_future(c) stand for c's result, gather(*cs) for the list of results. Returns (interp, go) for _explore; go() -> (value returned, responses handed out)."""
+    it = _ModelInterp([rn], oracle)
+    handed = []
+
+    def intercept(f, args, kwargs):
+        vals = list(args) + list(kwargs.values())
+        if isinstance(f, (_O, _T)):
+            hit = [k for k, lf in leaves.items() if any(a is lf or (isinstance(a, dict) and a.get("name") == lf["name"]) for a in vals)]  # (the description itself or a copy of it)
+            if len(hit) == 1 and not (isinstance(f, _O) and f.cls is C):
+                resp = {"weight": 1, "unit": "ops", "success": True, "dependent_timing": {"operation": leaves[hit[0]]["name"], "service_time": 0.25 + hit[0]}}
+                handed.append((hit[0], resp))
+                return resp
+        if isinstance(f, _T):
+            last = (f.path() or "").rsplit(".", 1)[-1]
+            if last in _AWAITED_AS_IS and args and not isinstance(args[0], _T):
+                return args[0]
+            if last == "gather" and not any(isinstance(a, _T) for a in args):
+                return list(args)
+        return NotImplemented
+
+    it.intercept = intercept
+
+    def go():
+        o = it.call(_Cls(C, rn), [], {}, C)
+        it.effects.clear()
+        return it.call(o, [_T("global", "es"), {"name": "composite-op", "requests": structure}], {}, C), handed
+
+    return it, go
+
+
+def _o713(chk, repo):
+    """Decided on VALUES: the composite runner is evaluated on representative request structures; the list it returns as the request's dependent timings must hold the response
+    of every executed sub-request exactly once - whichever way the streams are joined (loop, comprehension, helper, chain) and wherever in the structure they stand."""
+    rn = repo.module(_RN)
+    chk.use(rn)
+    C = rn.cls("Composite")
+    call = rn.methods(C).get("__call__")
+    if call is None:
+        raise AnchorMissing("Composite.__call__")
+    # the operation type of the model sub-requests: one the composite accepts (read off the evaluated constructor, whatever container it keeps them in)
+    op_type = "search"
+    try:
+        it0 = _Interp([rn])
+        o = it0.call(_Cls(C, rn), [], {}, C)
+        for v in o.f.values():
+            if isinstance(v, (list, tuple, set)) and v and all(isinstance(x, str) for x in v):
+                op_type = sorted(v)[0] if op_type not in v else op_type
+                break
+    except (_Undecided, _Need):
+        pass
+    for name, structure, leaves in _structures(op_type):
+        key = f"{_RN}:Composite.__call__:dependent-timings:{name}"
+        what = f"the composite request's dependent timings hold every executed sub-request exactly once: {name}"
+        try:
+            runs = _explore(lambda oracle: _composite_run(rn, C, structure, leaves, oracle))
+        except (_Undecided, _Need) as x:
+            chk.unknown("O7.13", f"Composite.__call__ not evaluated on the structure `{name}`: {x}", call)
+            continue
+        bad, unk = [], None
+        for it, (ret, handed) in runs:
+            lists = [v for v in (ret.values() if isinstance(ret, dict) else [ret]) if isinstance(v, list)]
+            if len(lists) != 1:
+                unk = f"what Composite.__call__ returns ({ret!r:.80}) carries {len(lists)} lists: the dependent timings are not recognised"
+                break
+            foreign = [x for x in lists[0] if not any(x is r for _, r in handed)]
+            if foreign:
+                unk = f"the returned timings contain `{foreign[0]!r:.60}`, which is not the response of a model sub-request"
+                break
+            if len(handed) != len(leaves):
+                unk = f"{len(handed)} of the {len(leaves)} sub-requests of the structure are executed on the model"
+                break
+            counts = {k: sum(1 for x in lists[0] if x is r) for k, r in handed}
+            lost, dup = sorted(k for k, c in counts.items() if c == 0), sorted(k for k, c in counts.items() if c > 1)
+            if lost or dup:
+                bad.append(f"{len(handed)} sub-requests executed, {len(lists[0])} timings returned"
+                           + (f"; no timing for {[leaves[k]['name'] for k in lost]}" if lost else "") + (f"; more than one timing for {[leaves[k]['name'] for k in dup]}" if dup else ""))
+        if unk is not None:
+            chk.unknown("O7.13", f"structure `{name}`: {unk}", call)
+            continue
+        chk.ob("O7.13", what, not bad, call, "; ".join(dict.fromkeys(bad)) if bad else f"{len(leaves)} sub-requests executed, one timing each ({len(runs)} decision sequence(s))", key=key)
+
+
 def run(chk):
     repo = chk.repo
     drv, met, rc = repo.module(_D), repo.module(_M), repo.module(_R)
@@ -3062,6 +3378,20 @@ def run(chk):
 
     ex, ge, *_ = timer_before_rampup_rule(chk, "O7.11", drv, "the warm-up clock of client i starts ramp*i/total late: its normal samples are labelled warm-up")
     _o711(chk, drv, ex, holders)
+
+    # ---- O7.12 every executed request is sampled -------------------------------------------------------------------------------------------------
+    chk.rule("O7.12", "every request the load generator executes is handed to the sampler exactly once, whatever ends the task: the end of the schedule, the runner's own "
+             "completion, or another client completing the parallel element while the request is in flight", len(_LOOP_SCENARIOS),
+             "a parallel element with completed-by: every client of a task that does not complete the element loses the sample (latency, service_time, processing_time and the "
+             "throughput contribution) of the request it was executing when the completing task ended")
+    _o712(chk, drv, ex, holders)
+
+    # ---- O7.13 one dependent timing per executed sub-request ----------------------------------------------------------------------------------------
+    chk.rule("O7.13", "the dependent timings a composite request reports hold the response of every executed sub-request exactly once, wherever in the request structure "
+             "its streams stand", 5,
+             "a composite operation whose concurrent streams are followed by another sub-request (open-point-in-time, searches, close-point-in-time): the service_time records of "
+             "the streams' sub-requests never reach the metrics store (or reach it twice)")
+    _o713(chk, repo)
 
 
 from sa.selftest import V  # noqa: E402
@@ -3498,4 +3828,49 @@ VARIANTS += [
     [V("R4 record helper of _put_metric stores only records that carry a task", "break", _M, "            doc[\"track-params\"] = self._track_params\n        self._add(doc)\n\n    def put_doc",
        "            doc[\"track-params\"] = self._track_params\n        self._store_record(doc)\n\n    def put_doc", "O7.7"),
      V("", "break", _M, _V_MS_TE, _V_MS_TE + "\n    def _store_record(self, record):\n        if \"task\" in record:\n            self._add(record)\n")],
+]
+
+
+# ---- seeding round 5: where the samples are produced (O7.12 request loop of the load generator, O7.13 dependent timings of a composite request) ---------------------
+_V_COMPLETED = "                else:\n                    completed = self.complete.is_set() or runner.completed\n"
+_V_COMPLETED_IF = "                if task_completes_parent:\n                    completed = runner.completed\n" + _V_COMPLETED
+_V_EX_CALL = "    async def __call__(self, *args, **kwargs):\n        any_task_completes_parent = self.task.any_completes_parent\n"
+_V_LOOP_END = "                if completed:\n                    self.logger.info(\"Task [%s] is considered completed due to external event.\", self.task)\n                    break\n"
+_V_JOIN_MID = ("                        streams_timings = await asyncio.gather(*streams)\n                        for stream_timings in streams_timings:\n"
+               "                            timings += stream_timings\n                        streams = []\n")
+_V_JOIN_END = "            streams_timings = await asyncio.gather(*streams)\n            for stream_timings in streams_timings:\n                timings += stream_timings\n        return timings\n"
+
+VARIANTS += [
+    V("seed m14: a client completed by another task leaves the loop before the request in flight is sampled", "break", _D, _V_COMPLETED,
+      "                elif self.complete.is_set():\n                    self.logger.info(\"Task [%s] is considered completed due to external event.\", self.task)\n                    break\n"
+      "                else:\n                    completed = runner.completed\n", "O7.12"),
+    V("S5 the loop is left on completion BEFORE the last request is sampled", "break", _D, _V_ADD_CALL, "                if completed:\n                    break\n" + _V_ADD_CALL, "O7.12"),
+    V("S5 once the element is completed by another client the requests still executed are not sampled any more", "break", _D, _V_ADD_CALL,
+      "                if self.complete.is_set() and not task_completes_parent:\n                    continue\n" + _V_ADD_CALL, "O7.12"),
+    V("S5 the request with which the runner reports completion is not sampled", "break", _D, _V_COMPLETED_IF,
+      "                if runner.completed:\n                    break\n" + _V_COMPLETED_IF, "O7.12"),
+    V("S5 only successful requests are sampled", "break", _D, _V_ADD_CALL, "                if not request_meta_data[\"success\"]:\n                    continue\n" + _V_ADD_CALL, "O7.12"),
+    V("S5 external completion handled in an arm of its own, sampled like every other request", "keep", _D, _V_COMPLETED,
+      "                elif self.complete.is_set():\n                    self.logger.info(\"Task [%s] has been completed by another client.\", self.task)\n                    completed = True\n"
+      "                else:\n                    completed = runner.completed\n"),
+    V("S5 end of the loop respelled with a continue", "keep", _D, _V_LOOP_END,
+      "                if not completed:\n                    continue\n                self.logger.info(\"Task [%s] is considered completed due to external event.\", self.task)\n                break\n"),
+    [V("S5 the completion test lives in a helper method", "keep", _D, _V_COMPLETED_IF, "                completed = self._completed(runner, task_completes_parent)\n"),
+     V("", "keep", _D, _V_EX_CALL, "    def _completed(self, runner, own_task_completes_parent):\n        if own_task_completes_parent:\n            return runner.completed\n"
+       "        return self.complete.is_set() or runner.completed\n\n" + _V_EX_CALL)],
+    [V("S5 completion test in a helper method that forgets the sample: the helper's caller leaves the loop at once", "break", _D, _V_COMPLETED_IF,
+       "                completed = self._completed(runner, task_completes_parent)\n                if completed and not task_completes_parent:\n                    break\n", "O7.12"),
+     V("", "break", _D, _V_EX_CALL, "    def _completed(self, runner, own_task_completes_parent):\n        if own_task_completes_parent:\n            return runner.completed\n"
+       "        return self.complete.is_set() or runner.completed\n\n" + _V_EX_CALL)],
+    V("seed m13: streams that are followed by a sub-request are only waited for, their timings dropped", "break", _RN, _V_JOIN_MID,
+      "                        await asyncio.gather(*streams)\n                        streams = []\n", "O7.13"),
+    V("S5 joined streams are not forgotten: their timings are reported again at the end", "break", _RN, _V_JOIN_MID, _V_JOIN_MID.replace("                        streams = []\n", ""), "O7.13"),
+    V("S5 the timings of the trailing streams replace what was collected so far", "break", _RN, _V_JOIN_END, _V_JOIN_END.replace("timings += stream_timings", "timings = stream_timings"), "O7.13"),
+    V("S5 only the first of several concurrent streams is joined into the timings", "break", _RN, _V_JOIN_MID,
+      _V_JOIN_MID.replace("for stream_timings in streams_timings:", "for stream_timings in streams_timings[:1]:"), "O7.13"),
+    V("S5 streams joined by a loop over the awaited gather, extend instead of +=", "keep", _RN, _V_JOIN_MID,
+      "                        for stream_timings in await asyncio.gather(*streams):\n                            timings.extend(stream_timings)\n                        streams = []\n"),
+    V("S5 trailing streams flattened by a comprehension", "keep", _RN, _V_JOIN_END,
+      "            timings += [t for stream_timings in await asyncio.gather(*streams) for t in stream_timings]\n        return timings\n"),
+    V("S5 joined streams forgotten with clear()", "keep", _RN, _V_JOIN_MID, _V_JOIN_MID.replace("streams = []", "streams.clear()")),
 ]
